@@ -5,6 +5,7 @@ package checks
 import (
 	"encoding/json"
 	"fmt"
+	"github.com/compose-spec/compose-go/v2/loader"
 	"os"
 	"path/filepath"
 	"sort"
@@ -258,6 +259,18 @@ func C10(c *core.Ctx) {
 			case kind == "valid":
 				accepted = append(accepted, p)
 				acceptedFrom = append(acceptedFrom, key)
+			}
+			// the rules are those of the consistency check: they hold for whatever loads with that check on, normalised or not
+			// (a cycle that runs through a dependency implied by links / a namespace / volumes_from exists only once normalisation
+			// has declared that dependency: without it the dependency graph of the statement has no such edge)
+			if kind == "edit" && pl == "single" && !(rule == "acyclic" && !strings.Contains(frag, "depends_on")) {
+				pn, errN := safeLoad(wd, nil, placements[pl], func(o *loader.Options) { o.SkipNormalization = true })
+				c.Eval(key+" [SkipNormalization]", true)
+				if errN == nil && pn != nil {
+					c.Report(core.Finding{Sig: "inconsistent-accepted-unnormalised:" + rule, Detail: fmt.Sprintf("a model violating exactly rule %q loads when normalisation is skipped and the consistency check is on (fragment %s)", rule, frag), Replay: rep})
+				} else if errN != nil && strings.HasPrefix(errN.Error(), "panic") {
+					c.Report(core.Finding{Sig: "panic:" + rule, Detail: key + " [SkipNormalization]: " + errN.Error(), Replay: rep})
+				}
 			}
 		}
 		return nil
